@@ -25,7 +25,9 @@ ASSUMPTIONS = ['in-memory LDAP directory under the real treadmill.admin._ldap.Ad
 BUDGET = {'quick': (150, 30.0), 'thorough': (4000, 240.0)}
 REQUIRED_REACH = {'*': ['accepted', 'rejected_capacity', 'decisions_with_shared_limited_trait', 'updates_decided', 'rejected_trait_limit',
                         'rejected_trait_limit_of_trait_named_with_punctuation', 'null_partition_requests_answered',
-                        'null_partition_updates_of_reservation_outside_default']}
+                        'null_partition_updates_of_reservation_outside_default',
+                        'rejected_for_less_than_1M_over_the_free_capacity', 'rejected_for_less_than_1M_over_the_free_trait_limit',
+                        'accepted_with_a_size_that_is_not_whole_megabytes']}
 
 TRAITS = ['ssd', 'gpu', 'big', 'x86']
 # a trait name is any string of up to 32 characters (common.json#/trait): names with punctuation, a 32-character name
@@ -200,6 +202,27 @@ def run(ctx):
                     rsrc['traits'] += rng.sample(MANY_TRAITS[4:], rng.randint(1, 3))
             if rng.random() < 0.3:
                 rsrc['rank'] = rng.randint(0, 100)
+            edge_part = rsrc.get('partition') or ('_default' if verb == 'create' and not null_partition else None)
+            if edge_part is not None and rng.random() < 0.2:
+                # a request sized to what is left: memory or disk spelled in kilobytes (not a whole number of megabytes
+                # as a rule), a little below, exactly at, or a little above the free capacity of the partition - or of a
+                # limited trait the request names - next to the reservations already there
+                cap_ = pcap.get((cell, edge_part), dict(cpu=0, memory=0, disk=0, limits={}))
+                others_ = [m for k, m in mirror.items() if k != key and k[1] == cell and m['partition'] == edge_part]
+                dim_ = rng.choice(['memory', 'disk'])
+                free_ = cap_[dim_] - sum(o[dim_] for o in others_)
+                lim_ = sorted(t for t in rsrc.get('traits', []) if t in cap_['limits'])
+                if lim_ and rng.random() < 0.5:
+                    t_ = rng.choice(lim_)
+                    free_ = min(free_, cap_['limits'][t_][dim_] - sum(o[dim_] for o in others_ if t_ in o['traits']))
+                kb_ = free_ // 1024 + rng.choice([-1000, -1, 0, 0, 1, 1, 300, 577, 1000, 1023])
+                if kb_ >= 0:
+                    rsrc[dim_] = '%d%s' % (kb_, rng.choice('Kk'))
+                    if rng.random() < 0.6:
+                        # ... and modest in the other dimensions, so that this one decides
+                        rsrc['cpu'] = '0%'
+                        rsrc['disk' if dim_ == 'memory' else 'memory'] = '0M'
+                    ctx.count('requests_in_K_sized_to_the_free_capacity')
             # ---- independent decision
             partition = rsrc.get('partition')
             if partition is None and not null_partition:
@@ -213,6 +236,8 @@ def run(ctx):
                 carried = list(mirror[key]['traits'])
                 kept = ':update-keeps-stored-traits:%s' % ('empty-list' if 'traits' in rsrc else 'absent')
 
+            over = {}        # when the decision is 'reject': the deciding dimension and by how much the request exceeds what is free
+
             def decide(partition):
                 """Does the reservation, as it will be stored, fit `partition` of the cell next to the others there?"""
                 cap = pcap.get((cell, partition), dict(cpu=0, memory=0, disk=0, limits={}))
@@ -220,6 +245,7 @@ def run(ctx):
                 shared, limiting = False, None
                 for dim in ('cpu', 'disk', 'memory'):
                     if req[dim] > cap[dim] - sum(o[dim] for o in others):
+                        over['by'] = (dim, req[dim] - (cap[dim] - sum(o[dim] for o in others)))
                         return 'reject', dim, shared, limiting
                 for t in carried:
                     if t in cap['limits']:
@@ -228,6 +254,7 @@ def run(ctx):
                         for dim in ('cpu', 'disk', 'memory'):
                             if req[dim] > cap['limits'][t][dim] - sum(o[dim] for o in sh):
                                 why = '%s:trait' % dim
+                                over['by'] = (dim, req[dim] - (cap['limits'][t][dim] - sum(o[dim] for o in sh)))
                                 if kept and t not in (rsrc.get('traits') or []):
                                     why += kept
                                 return 'reject', why, shared, t
@@ -317,6 +344,8 @@ def run(ctx):
                 break
             if outcome == 'reject':
                 ctx.count('rejected_trait_limit' if 'trait' in why else 'rejected_capacity')
+                if over['by'][0] != 'cpu' and 0 < over['by'][1] < 1024 * 1024:
+                    ctx.count('rejected_for_less_than_1M_over_the_free_' + ('trait_limit' if 'trait' in why else 'capacity'))
                 if limiting in odd_names:
                     ctx.count('rejected_trait_limit_of_trait_named_with_punctuation')
                 if directory.store != before:
@@ -324,6 +353,8 @@ def run(ctx):
                     break
                 continue
             ctx.count('accepted')
+            if any(own_bytes(rsrc[d_]) % (1024 * 1024) for d_ in ('memory', 'disk')):
+                ctx.count('accepted_with_a_size_that_is_not_whole_megabytes')
             old = mirror.get(key, {})
             mirror[key] = dict(cpu=own_cpu(rsrc['cpu']), memory=own_bytes(rsrc['memory']), disk=own_bytes(rsrc['disk']),
                                partition=partition, traits=list(rsrc['traits']) if 'traits' in rsrc else list(old.get('traits', [])))
